@@ -36,13 +36,25 @@ def guarded(f, secs=5.0):
         signal.setitimer(signal.ITIMER_REAL, 0)
 
 
-ALGS = {"affine_eq": ALG_AFFINE_EQ, "affine_geq": ALG_AFFINE_GEQ, "affine_leq": ALG_AFFINE_LEQ, "alldifferent": ALG_ALLDIFFERENT, "max_eq": ALG_MAX_EQ,
+ALGS = {"no_sub_cycle": ALG_NO_SUB_CYCLE, "scc": ALG_SCC, "affine_eq": ALG_AFFINE_EQ, "affine_geq": ALG_AFFINE_GEQ, "affine_leq": ALG_AFFINE_LEQ, "alldifferent": ALG_ALLDIFFERENT, "max_eq": ALG_MAX_EQ,
         "max_leq": ALG_MAX_LEQ, "min_eq": ALG_MIN_EQ, "min_geq": ALG_MIN_GEQ, "exactly_eq": ALG_EXACTLY_EQ, "count_eq": ALG_COUNT_EQ,
         "element_iv": ALG_ELEMENT_IV, "element_lic": ALG_ELEMENT_LIC, "element_liv": ALG_ELEMENT_LIV, "lexicographic_leq": ALG_LEXICOGRAPHIC_LEQ,
         "relation": ALG_RELATION, "dummy": ALG_DUMMY}
 
 
 def random_problem(rng, allow_alias=True):
+    if rng.random() < 0.12:
+        # circuit-style model: successor variables, alldifferent + no_sub_cycle (+ scc), optionally one fixed arc
+        n = rng.choice([3, 4, 4, 5])
+        doms = [(0, n - 1)] * n
+        if rng.random() < 0.5:
+            k = rng.randrange(n)
+            v = rng.randrange(n)
+            doms = [d if i != k else (v, v) for i, d in enumerate(doms)]
+        cons = [(list(range(n)), "alldifferent", []), (list(range(n)), "no_sub_cycle", [])]
+        if rng.random() < 0.5:
+            cons.append((list(range(n)), "scc", []))
+        return dict(doms=doms, idx=list(range(n)), off=[0] * n, cons=cons)
     D = rng.choice([1, 2, 2, 3, 3])
     doms = []
     for _ in range(D):
@@ -134,7 +146,48 @@ def check_stats(st, exhaustive_bc):
     return bad
 
 
+FIX_VIOL = []
+
+
+def install_fixpoint_monitor():
+    """C08: after every non-failing consistency pass re-execute each enabled propagator on the resulting domains"""
+    import nucs.solvers.consistency_algorithms as ca
+    from nucs.propagators.propagators import COMPUTE_DOMAINS_FCTS
+
+    def wrap(orig):
+        def alg(statistics, algorithms, var_bounds, param_bounds, dom_indices_arr, dom_offsets_arr, props_dom_indices, props_dom_offsets, props_parameters,
+                triggers, shr_domains_stack, not_entailed_propagators_stack, dom_update_stack, stacks_top, triggered_propagators, compute_domains_addrs, decision_domains):
+            top = int(stacks_top[0])
+            before = shr_domains_stack[top].copy()
+            st = orig(statistics, algorithms, var_bounds, param_bounds, dom_indices_arr, dom_offsets_arr, props_dom_indices, props_dom_offsets, props_parameters,
+                      triggers, shr_domains_stack, not_entailed_propagators_stack, dom_update_stack, stacks_top, triggered_propagators, compute_domains_addrs, decision_domains)
+            if st != PROBLEM_INCONSISTENT:
+                after = shr_domains_stack[int(stacks_top[0])]
+                if int(stacks_top[0]) != top:
+                    FIX_VIOL.append(("C08.height", "stack height changed by the pass"))
+                if (after[:, 0] < before[:, 0]).any() or (after[:, 1] > before[:, 1]).any() or (after[:, 0] > after[:, 1]).any():
+                    FIX_VIOL.append(("C08.shrink", f"{before.tolist()} -> {after.tolist()}"))
+                for p in range(len(algorithms)):
+                    if not not_entailed_propagators_stack[top, p]:
+                        continue
+                    s, e = int(var_bounds[p, 0]), int(var_bounds[p, 1])
+                    dom = after[props_dom_indices[s:e]] + props_dom_offsets[s:e]
+                    d2 = dom.copy()
+                    r = COMPUTE_DOMAINS_FCTS[algorithms[p]](d2, props_parameters[int(param_bounds[p, 0]):int(param_bounds[p, 1])])
+                    if r == PROP_INCONSISTENCY:
+                        FIX_VIOL.append(("C08.fixpoint_fail", f"propagator {p} (alg {int(algorithms[p])}) fails when re-executed on {dom.tolist()}"))
+                    elif (d2 != dom).any() and int(algorithms[p]) != ALG_NO_SUB_CYCLE:
+                        FIX_VIOL.append(("C08.fixpoint_change", f"propagator {p} (alg {int(algorithms[p])}) still prunes {dom.tolist()} -> {d2.tolist()}"))
+            return st
+        return alg
+
+    for k in range(len(ca.CONSISTENCY_ALG_FCTS)):
+        ca.CONSISTENCY_ALG_FCTS[k] = wrap(ca.CONSISTENCY_ALG_FCTS[k])
+
+
 def run(arg, pid, tier, seed):
+    if pid == "C08":
+        install_fixpoint_monitor()
     rng = random.Random(seed * 7919 + 17)
     n_problems = 120 if tier == "quick" else 1500
     t_end = time.time() + (150 if tier == "quick" else 2400)
@@ -172,6 +225,10 @@ def run(arg, pid, tier, seed):
                 if pid in ("C16", "C01", "C02", "C04", "C19"):
                     report(f"{pid}.exception", pb, cfg, f"{type(e).__name__}: {e}")
                 continue
+            if pid == "C08" and FIX_VIOL:
+                c, d = FIX_VIOL[0]
+                report(c, pb, cfg, d)
+                del FIX_VIOL[:]
             if pid == "C01":
                 bad = [x for x in got if x not in set(ref)]
                 if bad:
